@@ -27,6 +27,7 @@ import (
 	"github.com/google/go-containerregistry/pkg/v1/mutate"
 	"github.com/google/go-containerregistry/pkg/v1/tarball"
 	"github.com/google/osv-scalibr/artifact/image/layerscanning/image"
+	"github.com/google/osv-scalibr/artifact/image/pathtree"
 	"github.com/google/osv-scalibr/artifact/image/require"
 	"github.com/google/osv-scalibr/artifact/image/unpack"
 
@@ -327,7 +328,11 @@ func runCase(c *Case) {
 	if !c.Stable {
 		c.Distinct = 2
 	}
-	for k := 0; k < c.Repeat && c.Distinct < 2; k++ {
+	extra := c.Repeat
+	if c.Stream == "links" && extra < 6 {
+		extra = 6
+	}
+	for k := 0; k < extra && c.Distinct < 2; k++ {
 		v3, _ := observe(c, img)
 		b3, _ := json.Marshal(v3)
 		if !bytes.Equal(a, b3) {
@@ -856,6 +861,37 @@ func (g *gen) genCase(stream string) *Case {
 		for i := 0; i < nl; i++ {
 			c.Layers = append(c.Layers, g.randomLayer(18, false))
 		}
+	case "links":
+		// chains of links plus requirers and small depths: exercises the marking in removeUnnecessaryFileNodes
+		names := []string{"s1", "s2", "s3", "f", "g", "d/t"}
+		for i := 0; i < nl; i++ {
+			var es []Entry
+			n := 1 + g.r.Intn(4)
+			for k := 0; k < n; k++ {
+				nm := names[g.r.Intn(len(names))]
+				switch g.r.Intn(10) {
+				case 0, 1, 2:
+					es = append(es, Entry{Name: nm, Kind: "reg", Mode: 0o644, Content: g.content()})
+				case 3:
+					par := nm
+					if strings.Contains(nm, "/") {
+						par = "d/.wh.t"
+					} else {
+						par = ".wh." + nm
+					}
+					es = append(es, Entry{Name: par, Kind: "reg", Mode: 0})
+				default:
+					t := names[g.r.Intn(len(names))]
+					if g.r.Intn(2) == 0 {
+						t = "/" + t
+					} else if strings.Contains(nm, "/") {
+						t = "../" + t
+					}
+					es = append(es, Entry{Name: nm, Kind: "sym", Mode: 0o777, Target: t})
+				}
+			}
+			c.Layers = append(c.Layers, es)
+		}
 	default: // malformed
 		for i := 0; i < nl; i++ {
 			c.Layers = append(c.Layers, g.randomLayer(30, true))
@@ -869,8 +905,202 @@ func (g *gen) genCase(stream string) *Case {
 	c.Hist = g.history(len(c.Layers))
 	c.Probes = g.probes(c)
 	c.Cfg = g.config(c)
+	if stream == "links" {
+		c.Cfg = Cfg{Max: 1 << 30, Depth: g.r.Intn(4)}
+		if g.r.Intn(3) > 0 {
+			c.Cfg.Req = []string{}
+			for _, p := range []string{"s1", "s2", "s3", "f", "g", "d/t"} {
+				if g.r.Intn(2) == 0 {
+					c.Cfg.Req = append(c.Cfg.Req, p)
+				}
+			}
+		}
+	}
 	c.Unpack = c.Cfg.Req == nil && c.Cfg.Max == 1<<30 && g.r.Intn(2) == 0
 	return c
+}
+
+// ---------------------------------------------------------------- pathtree operation sequences
+
+type POp struct {
+	Op   string `json:"op"` // insert get children remove walk
+	Path string `json:"path,omitempty"`
+	Val  uint64 `json:"val,omitempty"`
+}
+type PObs struct {
+	Code     int        `json:"code,omitempty"`
+	Val      *uint64    `json:"val,omitempty"`
+	Children []uint64   `json:"children,omitempty"`
+	Nil      bool       `json:"nil,omitempty"`
+	Walk     [][]string `json:"walk,omitempty"`
+}
+type PCase struct {
+	Ops []POp  `json:"ops"`
+	Obs []PObs `json:"obs"`
+}
+
+var ptPaths = []string{"/", "/a", "/b", "/a/b", "/a/c", "/a/b/c", "/a/b/d", "/a/b/c/d", "/b/c", "/b/c/d", "/a/", "/a//b", "a", ""}
+
+func runPCase(c *PCase) {
+	t := pathtree.NewNode[uint64]()
+	for _, o := range c.Ops {
+		var ob PObs
+		switch o.Op {
+		case "insert":
+			v := o.Val
+			err := t.Insert(o.Path, &v)
+			switch {
+			case err == nil:
+				ob.Code = 0
+			case errors.Is(err, pathtree.ErrNodeAlreadyExists):
+				ob.Code = 1
+			default:
+				ob.Code = 2
+			}
+		case "get":
+			if v := t.Get(o.Path); v != nil {
+				x := *v
+				ob.Val = &x
+			}
+		case "remove":
+			if v := t.Remove(o.Path); v != nil {
+				x := *v
+				ob.Val = &x
+			}
+		case "children":
+			ch := t.GetChildren(o.Path)
+			if ch == nil {
+				ob.Nil = true
+			} else {
+				ob.Children = []uint64{}
+				for _, v := range ch {
+					ob.Children = append(ob.Children, *v)
+				}
+				sort.Slice(ob.Children, func(i, j int) bool { return ob.Children[i] < ob.Children[j] })
+			}
+		default:
+			ob.Walk = [][]string{}
+			_ = t.Walk(func(p string, v *uint64) error {
+				ob.Walk = append(ob.Walk, []string{p, fmt.Sprint(*v)})
+				return nil
+			})
+			sort.Slice(ob.Walk, func(i, j int) bool { return ob.Walk[i][0] < ob.Walk[j][0] })
+		}
+		c.Obs = append(c.Obs, ob)
+	}
+}
+
+func genPCase(r *rand.Rand, next *uint64) *PCase {
+	c := &PCase{}
+	n := 6 + r.Intn(12)
+	for i := 0; i < n; i++ {
+		p := ptPaths[r.Intn(len(ptPaths))]
+		switch x := r.Intn(100); {
+		case x < 40:
+			*next++
+			c.Ops = append(c.Ops, POp{Op: "insert", Path: p, Val: *next})
+		case x < 55:
+			c.Ops = append(c.Ops, POp{Op: "get", Path: p})
+		case x < 65:
+			c.Ops = append(c.Ops, POp{Op: "children", Path: p})
+		case x < 88:
+			c.Ops = append(c.Ops, POp{Op: "remove", Path: p})
+		default:
+			c.Ops = append(c.Ops, POp{Op: "walk"})
+		}
+	}
+	// always end with a full dump
+	c.Ops = append(c.Ops, POp{Op: "walk"})
+	for _, p := range []string{"/", "/a", "/b", "/a/b", "/b/c"} {
+		c.Ops = append(c.Ops, POp{Op: "children", Path: p}, POp{Op: "get", Path: p})
+	}
+	return c
+}
+
+func coqPCase(c *PCase) string {
+	var ops, obs []string
+	for _, o := range c.Ops {
+		switch o.Op {
+		case "insert":
+			ops = append(ops, fmt.Sprintf("PInsert %s %s", cf.Str(o.Path), cf.N(o.Val)))
+		case "get":
+			ops = append(ops, "PGet "+cf.Str(o.Path))
+		case "children":
+			ops = append(ops, "PChildren "+cf.Str(o.Path))
+		case "remove":
+			ops = append(ops, "PRemove "+cf.Str(o.Path))
+		default:
+			ops = append(ops, "PWalk")
+		}
+	}
+	for i, ob := range c.Obs {
+		switch c.Ops[i].Op {
+		case "insert":
+			obs = append(obs, fmt.Sprintf("OInsert %s", cf.N(uint64(ob.Code))))
+		case "get", "remove":
+			if ob.Val == nil {
+				obs = append(obs, "OValue None")
+			} else {
+				obs = append(obs, fmt.Sprintf("OValue (Some %s)", cf.N(*ob.Val)))
+			}
+		case "children":
+			if ob.Nil {
+				obs = append(obs, "OChildren None")
+			} else {
+				var l []string
+				for _, v := range ob.Children {
+					l = append(l, cf.N(v))
+				}
+				obs = append(obs, "OChildren (Some "+cf.List(l)+")")
+			}
+		default:
+			var l []string
+			for _, w := range ob.Walk {
+				l = append(l, fmt.Sprintf("(%s, %s%%N)", cf.Str(w[0]), w[1]))
+			}
+			obs = append(obs, "OWalk "+cf.List(l))
+		}
+	}
+	return fmt.Sprintf("{| pc_ops := %s;\n     pc_obs := %s |}", cf.List(ops), cf.List(obs))
+}
+
+const pheader = `From Coq Require Import List NArith Bool.
+From Scalibr Require Import Image.PathTree Image.PathMap.
+Import ListNotations.
+`
+
+func pathtreeMain(out, jsonl string, seed int64, n, per int) {
+	r := rand.New(rand.NewSource(seed*7919 + 13))
+	var next uint64
+	var cases []*PCase
+	// the sequence from the seeded-change report first: Insert(/a), Insert(/a/f), Remove(/a/f), Get(/a)
+	cases = append(cases, &PCase{Ops: []POp{{Op: "insert", Path: "/a", Val: 1}, {Op: "insert", Path: "/a/f", Val: 2},
+		{Op: "remove", Path: "/a/f"}, {Op: "get", Path: "/a"}, {Op: "children", Path: "/"}, {Op: "walk"}}})
+	for i := 0; i < n; i++ {
+		cases = append(cases, genPCase(r, &next))
+	}
+	for _, c := range cases {
+		runPCase(c)
+	}
+	if jsonl != "" {
+		f, err := os.Create(jsonl)
+		if err != nil {
+			panic(err)
+		}
+		enc := json.NewEncoder(f)
+		for _, c := range cases {
+			_ = enc.Encode(c)
+		}
+		f.Close()
+	}
+	var items []string
+	for _, c := range cases {
+		items = append(items, coqPCase(c))
+	}
+	txt := pheader + cf.Chunked("cases", "pcase", items, per)
+	if err := os.WriteFile(out, []byte(txt), 0o644); err != nil {
+		panic(err)
+	}
 }
 
 // ---------------------------------------------------------------- main
@@ -882,7 +1112,12 @@ func main() {
 	n := flag.Int("n", 200, "number of generated cases")
 	per := flag.Int("per", 10, "cases per Coq chunk")
 	replay := flag.String("replay", "", "JSON file with one case (or a list of cases / known findings with a 'witness') to run instead of generating")
+	pt := flag.Int("pathtree", -1, "generate this many pathtree operation sequences instead of images")
 	flag.Parse()
+	if *pt >= 0 {
+		pathtreeMain(*out, *jsonl, *seed, *pt, *per)
+		return
+	}
 
 	var cases []*Case
 	if *replay != "" {
@@ -930,7 +1165,7 @@ func main() {
 		}
 	} else {
 		g := &gen{r: rand.New(rand.NewSource(*seed))}
-		streams := []string{"diff-explicit", "diff-explicit", "diff-implicit", "diff-implicit", "random", "random", "malformed"}
+		streams := []string{"diff-explicit", "diff-explicit", "diff-implicit", "diff-implicit", "random", "random", "malformed", "links"}
 		for i := 0; i < *n; i++ {
 			cases = append(cases, g.genCase(streams[i%len(streams)]))
 		}
